@@ -55,6 +55,58 @@ fn report_reply(leaf: &mut Leaf, tag: &str, reply: Option<mcp::Reply>, direct: &
     }
 }
 
+/// explain_matching for every disposal of `rep` (ticker as written and in lower case): found, and every figure equals the report's
+fn explain_all(leaf: &mut Leaf, server: &crate::mcpgen::server::CgtServer, input: &str, rep: &TaxReport) {
+    for d in rep.tax_years.iter().flat_map(|y| y.disposals.iter()) {
+        let name = format!("{} {}", d.ticker, d.date);
+        for ticker in [d.ticker.clone(), d.ticker.to_lowercase()] {
+            let Some(reply) = mcp::explain_matching(&server, &input, &d.date.to_string(), &ticker) else {
+                leaf.extra["explain.pending"] = json!(true);
+                continue;
+            };
+            let text = match reply {
+                Ok(t) => t,
+                Err(m) => {
+                    leaf.ob_bool("MCP.explain-finds-the-disposal", false, &format!("{name} (asked as {ticker}): {}", m.lines().next().unwrap_or("")));
+                    continue;
+                }
+            };
+            let js: Value = serde_json::from_str(&text).unwrap_or(Value::Null);
+            let mut atoms = Vec::new();
+            let mut problems = Vec::new();
+            if js["disposal_date"].as_str() != Some(d.date.to_string().as_str()) || js["ticker"].as_str() != Some(d.ticker.as_str()) {
+                problems.push(format!("explain identity {name}: {} {}", js["disposal_date"], js["ticker"]));
+            }
+            exact(&format!("explain quantity {name}"), &js["quantity"], d.quantity, &mut atoms, &mut problems);
+            money(&format!("explain proceeds {name}"), &js["proceeds"], d.proceeds, &mut atoms, &mut problems);
+            money(&format!("explain total gain {name}"), &js["total_gain_or_loss"], super::common::sum(d.matches.iter().map(|m| m.gain_or_loss)), &mut atoms, &mut problems);
+            let jm = js["matches"].as_array().cloned().unwrap_or_default();
+            if jm.len() != d.matches.len() {
+                problems.push(format!("explain lists {} legs for {name}, the report {}", jm.len(), d.matches.len()));
+            }
+            for (m, n) in d.matches.iter().zip(jm.iter()) {
+                let want = match m.rule {
+                    MatchRule::SameDay => "Same Day",
+                    MatchRule::BedAndBreakfast => "Bed & Breakfast",
+                    MatchRule::Section104 => "Section 104",
+                };
+                if n["rule"].as_str() != Some(want) {
+                    problems.push(format!("explain leg rule {} for {want} ({name})", n["rule"]));
+                }
+                exact(&format!("explain leg quantity {name}"), &n["quantity"], m.quantity, &mut atoms, &mut problems);
+                money(&format!("explain leg allowable_cost {name}"), &n["allowable_cost"], m.allowable_cost, &mut atoms, &mut problems);
+                money(&format!("explain leg gain_or_loss {name}"), &n["gain_or_loss"], m.gain_or_loss, &mut atoms, &mut problems);
+                let want_acq = m.acquisition_date.map(|a| a.to_string());
+                if n.get("acquisition_date").and_then(|x| x.as_str()).map(|s| s.to_string()) != want_acq {
+                    problems.push(format!("explain leg acquisition date {name}"));
+                }
+            }
+            leaf.ob_bool("MCP.explain-structure", problems.is_empty(), &problems.join("; "));
+            leaf.ob("MCP.explain-figures", &vx::and(&atoms));
+        }
+    }
+}
+
 pub fn c17_mcp(sk: &Skeleton) -> Leaf {
     let mode = Mode::parse(&sk.opt_str("mode").unwrap_or_else(|| "QPF".into()));
     let lines = ledger::instantiate(sk, "lines", &mode);
@@ -104,55 +156,7 @@ pub fn c17_mcp(sk: &Skeleton) -> Leaf {
         let d = cgt_core::calculator::calculate(&txs, Some(yr), cache.as_ref(), &cfg);
         report_reply(&mut leaf, &format!("C17.mcp-report-{yr}"), mcp::calculate_report(&server, &input, Some(yr)), &d);
     }
-    // ---- explain_matching, every disposal (ticker also in lower case)
-    for d in rep.tax_years.iter().flat_map(|y| y.disposals.iter()) {
-        let name = format!("{} {}", d.ticker, d.date);
-        for ticker in [d.ticker.clone(), d.ticker.to_lowercase()] {
-            let Some(reply) = mcp::explain_matching(&server, &input, &d.date.to_string(), &ticker) else {
-                leaf.extra["explain.pending"] = json!(true);
-                continue;
-            };
-            let text = match reply {
-                Ok(t) => t,
-                Err(m) => {
-                    leaf.ob_bool("C17.mcp-explain-finds-the-disposal", false, &format!("{name} (asked as {ticker}): {}", m.lines().next().unwrap_or("")));
-                    continue;
-                }
-            };
-            let js: Value = serde_json::from_str(&text).unwrap_or(Value::Null);
-            let mut atoms = Vec::new();
-            let mut problems = Vec::new();
-            if js["disposal_date"].as_str() != Some(d.date.to_string().as_str()) || js["ticker"].as_str() != Some(d.ticker.as_str()) {
-                problems.push(format!("explain identity {name}: {} {}", js["disposal_date"], js["ticker"]));
-            }
-            exact(&format!("explain quantity {name}"), &js["quantity"], d.quantity, &mut atoms, &mut problems);
-            money(&format!("explain proceeds {name}"), &js["proceeds"], d.proceeds, &mut atoms, &mut problems);
-            money(&format!("explain total gain {name}"), &js["total_gain_or_loss"], super::common::sum(d.matches.iter().map(|m| m.gain_or_loss)), &mut atoms, &mut problems);
-            let jm = js["matches"].as_array().cloned().unwrap_or_default();
-            if jm.len() != d.matches.len() {
-                problems.push(format!("explain lists {} legs for {name}, the report {}", jm.len(), d.matches.len()));
-            }
-            for (m, n) in d.matches.iter().zip(jm.iter()) {
-                let want = match m.rule {
-                    MatchRule::SameDay => "Same Day",
-                    MatchRule::BedAndBreakfast => "Bed & Breakfast",
-                    MatchRule::Section104 => "Section 104",
-                };
-                if n["rule"].as_str() != Some(want) {
-                    problems.push(format!("explain leg rule {} for {want} ({name})", n["rule"]));
-                }
-                exact(&format!("explain leg quantity {name}"), &n["quantity"], m.quantity, &mut atoms, &mut problems);
-                money(&format!("explain leg allowable_cost {name}"), &n["allowable_cost"], m.allowable_cost, &mut atoms, &mut problems);
-                money(&format!("explain leg gain_or_loss {name}"), &n["gain_or_loss"], m.gain_or_loss, &mut atoms, &mut problems);
-                let want_acq = m.acquisition_date.map(|a| a.to_string());
-                if n.get("acquisition_date").and_then(|x| x.as_str()).map(|s| s.to_string()) != want_acq {
-                    problems.push(format!("explain leg acquisition date {name}"));
-                }
-            }
-            leaf.ob_bool("C17.mcp-explain-structure", problems.is_empty(), &problems.join("; "));
-            leaf.ob("C17.mcp-explain-figures", &vx::and(&atoms));
-        }
-    }
+    explain_all(&mut leaf, &server, &input, &rep);
     // ---- the same request again on the same server object: nothing may have been retained
     report_reply(&mut leaf, "C17.mcp-report-again", mcp::calculate_report(&server, &input, None), &Ok(rep));
     leaf
@@ -195,6 +199,39 @@ pub fn c14_mcp(sk: &Skeleton) -> Leaf {
             }
             Ok(back) => same_transactions(&mut leaf, "C14.mcp-convert", &txs, &back),
         },
+    }
+    leaf
+}
+
+/// C07 through the MCP tools: `explain_matching` derives the tax year of the disposal date itself (inline 6-April test) and asks
+/// for that year's report; every disposal of the all-years report must be found there with the same figures, and
+/// `calculate_report` for each year must be that year's slice.
+pub fn c07_mcp(sk: &Skeleton) -> Leaf {
+    let mode = Mode::parse(&sk.opt_str("mode").unwrap_or_else(|| "QPF".into()));
+    let lines = ledger::instantiate(sk, "lines", &mode);
+    let txs = ledger::to_transactions(&lines);
+    let mut leaf = Leaf { extra: json!({"ledger": ledger::describe(&lines)}), outcome: "ok".into(), ..Default::default() };
+    if !crate::mcpgen::AVAILABLE {
+        leaf.outcome = "skip".into();
+        return leaf;
+    }
+    let mut cfg = Config::embedded().expect("config");
+    for y in 1900u16..=2100 {
+        cfg.exemptions.entry(y).or_insert(Decimal::from(3000));
+    }
+    let server = mcp::server(None, cfg.clone());
+    let input = serde_json::to_string(&txs).unwrap_or_default();
+    let direct = cgt_core::calculator::calculate(&txs, None, None, &cfg);
+    leaf.sig = super::common::signature(&direct, sk);
+    let Ok(rep) = direct else {
+        leaf.outcome = "err".into();
+        return leaf;
+    };
+    explain_all(&mut leaf, &server, &input, &rep);
+    for y in &rep.tax_years {
+        let yr = y.period.start_year() as i32;
+        let d = cgt_core::calculator::calculate(&txs, Some(yr), None, &cfg);
+        report_reply(&mut leaf, &format!("C07.mcp-report-{yr}"), mcp::calculate_report(&server, &input, Some(yr)), &d);
     }
     leaf
 }
